@@ -76,6 +76,57 @@ def check_address_independent(prog, units, res):
     return n
 
 
+def check_failed_verify_restores(prog, res):
+    """R10.6: a Verify step that saves a state field before advancing the state (botpHOTPStepV / botpOCRAStepV:
+    ctr1 <- ctr, then StepR) restores it on every return that does not report success, and only after the advance: a
+    rejected password leaves the counter where it was (get-then-continue; round-9 seed C10/2)."""
+    n = 0
+    for f in prog.all_funcs():
+        if f.body is None or f.relfile != "src/crypto/botp.c" or not re.search(r"StepV$", f.name):
+            continue
+        rets, early = [], []
+
+        def on_return(e, rc, facts, node, cl, pend, env):
+            rets.append((node.line, rc, {x[1:] for x in facts if x[0] == "from"}))
+
+        def on_call(c, facts, node, cl):
+            if re.search(r"StepR$|StepG$", c.get("callee") or ""):
+                early.append((c.get("l") or node.line, c["callee"], {x[1:] for x in facts if x[0] == "from"}))
+        vp.run_facts(f, prog, on_return=on_return, on_call=on_call, track_generic=True)
+        saves = set()
+        for _, _, fr in rets:
+            saves |= {(d, s_) for d, s_ in fr if d.startswith("state->") and s_.startswith("state->") and (s_, d) not in saves}
+        # the save is the copy that exists before the advancing call
+        saved = {(d, s_) for _, _, fr in early for d, s_ in fr if d.startswith("state->") and s_.startswith("state->")}
+        if not saved:
+            continue            # a one-shot check (botpTOTPStepV): nothing is advanced
+        n += 1
+        bad = []
+        for line, rc, fr in rets:
+            if rc == "nonzero":
+                continue
+            for d, s_ in saved:
+                if (s_, d) not in fr:
+                    bad.append("the return at line %d (%s) is reached without %s having been copied back from %s" %
+                               (line, "failure" if rc == "zero" else "result not known to be success", s_, d))
+        for line, callee, fr in early:
+            for d, s_ in saved:
+                if (s_, d) in fr:
+                    bad.append("%s is copied back from %s before %s advances it (line %d)" % (s_, d, callee, line))
+        if bad:
+            res.violation("R10.6-failed-verify-restores", function=f.name, file=f.relfile, line=f.line,
+                          construct="save / restore of %s" % ", ".join(sorted(s_ for _, s_ in saved)),
+                          detail="; ".join(sorted(set(bad))) + ": a rejected password leaves the state advanced, so every later "
+                                 "step runs ahead of the peer")
+        else:
+            res.proved("R10.6-failed-verify-restores", function=f.name, file=f.relfile, line=f.line,
+                       construct="save / restore of %s" % ", ".join(sorted(s_ for _, s_ in saved)),
+                       detail="every return that does not report success follows the copy back, which follows the advancing call")
+    if n < 2:
+        raise AnalysisBroken("R10.6: %d Verify steps with a saved counter found, 2 confirmed by reading (HOTP, OCRA)" % n)
+    return n
+
+
 def run(tier, seed=0):
     res = Result("C10", "other", tier)
     prog = ir.Program("w64")
@@ -166,6 +217,7 @@ def run(tier, seed=0):
     res.floor("Get/Verify steps", nget, 25)
     nsib = sb.check_sibling_steps(prog, res, "R10.4-sibling-steps-buffer-identically")
     res.floor("sibling Step functions", nsib, 23)
+    check_failed_verify_restores(prog, res)
     res.coverage["pointer_fields"] = sorted("%s.%s" % x for x in ptr_fields)
     res.coverage["pointer_stores_checked"] = nstores
     res.coverage["explanation"] = (
